@@ -22,7 +22,51 @@ struct PCase {
     console: bool,
     /// only: create a scanner and call finish() without scanning any block
     finish_only: bool,
+    /// flags passed to yrx_compiler_create (the Rust compiler is configured through the methods
+    /// the header documents for each flag)
+    flags: u32,
+    /// (tag, source) added after the regular sources: each makes one compiler flag observable
+    probes: Vec<(String, String)>,
+    /// after build(): add the probes again to the same YRX_COMPILER (re-created with its flags) and build again
+    second_round: bool,
+    /// directory holding c19_inc.yar, registered with add_include_dir
+    inc_dir: Option<String>,
 }
+
+const F_COLORIZE: u32 = 1;
+const F_RELAXED_RE: u32 = 2;
+const F_ERR_SLOW_PATTERN: u32 = 4;
+const F_ERR_SLOW_LOOP: u32 = 8;
+const F_COND_OPT: u32 = 16;
+const F_NO_INCLUDES: u32 = 32;
+
+/// the flags as capi/include/yara_x.h documents them, applied to a Rust compiler
+fn rust_compiler<'a>(flags: u32) -> yara_x::Compiler<'a> {
+    let mut c = yara_x::Compiler::new();
+    if flags & F_COLORIZE != 0 { c.colorize_errors(true); }
+    if flags & F_RELAXED_RE != 0 { c.relaxed_re_syntax(true); }
+    if flags & F_ERR_SLOW_PATTERN != 0 { c.error_on_slow_pattern(true); }
+    if flags & F_ERR_SLOW_LOOP != 0 { c.error_on_slow_loop(true); }
+    if flags & F_COND_OPT != 0 { c.condition_optimization(true); }
+    if flags & F_NO_INCLUDES != 0 { c.enable_includes(false); }
+    c
+}
+
+fn all_probes() -> Vec<(String, String)> {
+    let p = |t: &str, s: &str| (t.to_string(), s.to_string());
+    vec![
+        p("slow_pattern_hex", "rule pr_sp1 { strings: $a = {00 [1-10] 01} condition: $a }"),
+        p("slow_pattern_re", "rule pr_sp2 { strings: $a = /a.*/ condition: $a }"),
+        p("slow_loop", "rule pr_sl { condition: for any i in (0..filesize) : ( uint8(i) == 0 ) }"),
+        p("relaxed_re_escape", "rule pr_re1 { strings: $a = /alp\\Rha|alpha/ condition: $a }"),
+        p("relaxed_re_braces", "rule pr_re2 { strings: $a = /alpha{}|bravo/ condition: $a }"),
+        p("include", "include \"c19_inc.yar\"\nrule pr_inc { condition: c19_included }"),
+        p("include_missing", "include \"c19_no_such_file.yar\""),
+        p("syntax_error", "rule pr_bad { condition: 1 + }"),
+        p("optimizable", "rule pr_opt { condition: for all i in (0..3) : ( filesize + 2 * 3 > i ) and filesize + 2 * 3 > 0 }"),
+    ]
+}
+
 
 const WORDS: [&str; 6] = ["alpha", "bravo", "charlie", "delta", "echo1", "foxtrot"];
 
@@ -223,7 +267,11 @@ fn gen_pcase(rng: &mut Rng) -> PCase {
         }
     }
     if rng.chance(1, 8) { c.overrides.push(Global { name: "nosuch".into(), val: GVal::I(1) }); }
-    c.one_shot = c.globals.is_empty() && c.sources.iter().all(|s| s.0.is_none()) && rng.chance(1, 2);
+    c.flags = match rng.below(4) { 0 => 0, 1 => 1 << rng.below(6), _ => rng.below(64) as u32 };
+    let p_probe = if c.flags != 0 { 2 } else { 1 };
+    for pr in all_probes() { if rng.chance(p_probe, 4) { c.probes.push(pr); } }
+    c.second_round = !c.probes.is_empty() && rng.chance(1, 2);
+    c.one_shot = c.flags == 0 && c.probes.is_empty() && c.globals.is_empty() && c.sources.iter().all(|s| s.0.is_none()) && rng.chance(1, 2);
     c.roundtrip = rng.chance(1, 6);
     c.block = rng.chance(1, 3);
     c.fast = rng.chance(1, 6);
@@ -275,17 +323,47 @@ unsafe fn c_set(rec: &mut Rec, sc: *mut YRX_SCANNER, g: &Global) -> u32 {
     }
 }
 
+/// add every probe source; per probe: accepted?, the message left in the last-error slot, coloured?
+unsafe fn c_probes(c: &PCase, rec: &mut Rec, comp: *mut YRX_COMPILER, extra: &mut Vec<Vec<u8>>) {
+    for (tag, src) in &c.probes {
+        let s = cs(src);
+        let code = rec.r("yrx_compiler_add_source", || yrx_compiler_add_source(comp, s.as_ptr()));
+        extra.push(format!("probe:{}:{}", tag, if code == SUCCESS { "accepted".to_string() } else if code == SYNTAX_ERROR { "rejected".to_string() } else { format!("code {}", code) }).into_bytes());
+        if code != SUCCESS {
+            let m = slot().unwrap_or_default();
+            extra.push(format!("probe:{}:coloured:{}", tag, m.contains('\u{1b}')).into_bytes());
+            extra.push(format!("probe:{}:message:{}", tag, m).into_bytes());
+        }
+    }
+}
+/// codes of the errors and warnings the compiler has accumulated (errors_json / warnings_json)
+unsafe fn c_diagnostics(rec: &mut Rec, comp: *mut YRX_COMPILER, extra: &mut Vec<Vec<u8>>) {
+    for (what, warn) in [("errors", false), ("warnings", true)] {
+        let mut buf: *mut YRX_BUFFER = null_mut();
+        let code = if warn { rec.r("yrx_compiler_warnings_json", || yrx_compiler_warnings_json(comp, &mut buf)) } else { rec.r("yrx_compiler_errors_json", || yrx_compiler_errors_json(comp, &mut buf)) };
+        if code == SUCCESS {
+            let js = bytes_of((*buf).data, (*buf).length);
+            let codes: Vec<String> = serde_json::from_slice::<serde_json::Value>(&js).ok().and_then(|v| v.as_array().map(|a| a.iter().map(|e| e["code"].as_str().unwrap_or("?").to_string()).collect())).unwrap_or_else(|| vec!["unparsable".into()]);
+            extra.push(format!("{}:{}", what, codes.join(",")).into_bytes());
+            rec.o("yrx_buffer_destroy", || yrx_buffer_destroy(buf));
+        } else { extra.push(format!("{}: code {}", what, code).into_bytes()); }
+    }
+}
+
 unsafe fn c_flow(c: &PCase, rec: &mut Rec) -> Vec<ScanDump> {
     let mut dumps = vec![];
     let mut listing = ScanDump::default();
     let mut rules: *mut YRX_RULES = null_mut();
+    let mut second: Option<ScanDump> = None;
     if c.one_shot {
         let src = cs(&joined(c));
         let code = rec.r("yrx_compile", || yrx_compile(src.as_ptr(), &mut rules));
         if code != SUCCESS { listing.status = 1; dumps.push(listing); return dumps; }
     } else {
         let mut comp: *mut YRX_COMPILER = null_mut();
-        rec.r("yrx_compiler_create", || yrx_compiler_create(0, &mut comp));
+        let flags = c.flags;
+        rec.r("yrx_compiler_create", || yrx_compiler_create(flags, &mut comp));
+        if let Some(d) = &c.inc_dir { let d = cs(d); rec.r("yrx_compiler_add_include_dir", || yrx_compiler_add_include_dir(comp, d.as_ptr())); }
         for g in &c.globals { let code = c_define(rec, comp, g); listing.extra.push(format!("def:{}", code == SUCCESS).into_bytes()); }
         let mut failed = 0;
         for (ns, src) in &c.sources {
@@ -295,14 +373,29 @@ unsafe fn c_flow(c: &PCase, rec: &mut Rec) -> Vec<ScanDump> {
             if code != SUCCESS { failed += 1; if code != SYNTAX_ERROR { listing.extra.push(format!("add_source code {}", code).into_bytes()); } }
         }
         listing.extra.push(format!("failed:{}", failed).into_bytes());
-        let mut buf: *mut YRX_BUFFER = null_mut();
-        if rec.r("yrx_compiler_errors_json", || yrx_compiler_errors_json(comp, &mut buf)) == SUCCESS {
-            let js = bytes_of((*buf).data, (*buf).length);
-            let n = serde_json::from_slice::<serde_json::Value>(&js).ok().and_then(|v| v.as_array().map(|a| a.len())).unwrap_or(usize::MAX);
-            listing.extra.push(format!("errors:{}", n).into_bytes());
-            rec.o("yrx_buffer_destroy", || yrx_buffer_destroy(buf));
-        }
+        c_probes(c, rec, comp, &mut listing.extra);
+        c_diagnostics(rec, comp, &mut listing.extra);
         rules = rec.o("yrx_compiler_build", || yrx_compiler_build(comp));
+        if c.second_round {
+            // the YRX_COMPILER was re-created inside yrx_compiler_build with the flags it was created with
+            let mut l2 = ScanDump::default();
+            c_probes(c, rec, comp, &mut l2.extra);
+            c_diagnostics(rec, comp, &mut l2.extra);
+            let r2 = rec.o("yrx_compiler_build", || yrx_compiler_build(comp));
+            yrx_rules_iter(r2, cb_rule, &mut l2.rules as *mut _ as *mut c_void);
+            let mut sc: *mut YRX_SCANNER = null_mut();
+            rec.r("yrx_scanner_create", || yrx_scanner_create(r2, &mut sc));
+            let mut out: Vec<RuleDump> = vec![];
+            let ud = &mut out as *mut _ as *mut c_void;
+            rec.r("yrx_scanner_on_matching_rule", || yrx_scanner_on_matching_rule(sc, cb_rule, ud));
+            let b = &c.buffers[0];
+            let code = rec.r("yrx_scanner_scan", || yrx_scanner_scan(sc, if b.is_empty() { null() } else { b.as_ptr() }, b.len()));
+            l2.status = c_status(code);
+            for r in (*(ud as *mut Vec<RuleDump>)).iter() { let mut x = b"matched:".to_vec(); x.extend(&r.ident); l2.extra.push(x); }
+            rec.o("yrx_scanner_destroy", || yrx_scanner_destroy(sc));
+            rec.o("yrx_rules_destroy", || yrx_rules_destroy(r2));
+            second = Some(l2);
+        }
         rec.o("yrx_compiler_destroy", || yrx_compiler_destroy(comp));
     }
     if c.roundtrip {
@@ -324,6 +417,7 @@ unsafe fn c_flow(c: &PCase, rec: &mut Rec) -> Vec<ScanDump> {
     yrx_rules_iter_imports(rules, cb_import, &mut imports as *mut _ as *mut c_void);
     for i in imports { let mut x = b"import:".to_vec(); x.extend(i); listing.extra.push(x); }
     dumps.push(listing);
+    if let Some(l2) = second { dumps.push(l2); }
 
     if c.finish_only {
         let mut sc: *mut YRX_SCANNER = null_mut();
@@ -401,13 +495,33 @@ macro_rules! r_set { ($sc:expr, $g:expr) => { match &$g.val {
     GVal::J(s) => $sc.set_global(&$g.name, serde_json::from_str::<serde_json::Value>(s).unwrap()).is_ok(),
 } } }
 
+fn r_probes(c: &PCase, comp: &mut yara_x::Compiler, extra: &mut Vec<Vec<u8>>) {
+    for (tag, src) in &c.probes {
+        match comp.add_source(src.as_str()) {
+            Ok(_) => extra.push(format!("probe:{}:accepted", tag).into_bytes()),
+            Err(e) => {
+                let m = e.to_string();
+                extra.push(format!("probe:{}:rejected", tag).into_bytes());
+                extra.push(format!("probe:{}:coloured:{}", tag, m.contains('\u{1b}')).into_bytes());
+                extra.push(format!("probe:{}:message:{}", tag, m).into_bytes());
+            }
+        }
+    }
+}
+fn r_diagnostics(comp: &yara_x::Compiler, extra: &mut Vec<Vec<u8>>) {
+    extra.push(format!("errors:{}", comp.errors().iter().map(|e| e.code().to_string()).collect::<Vec<_>>().join(",")).into_bytes());
+    extra.push(format!("warnings:{}", comp.warnings().iter().map(|w| w.code().to_string()).collect::<Vec<_>>().join(",")).into_bytes());
+}
+
 fn rust_flow(c: &PCase) -> Vec<ScanDump> {
     let mut dumps = vec![];
     let mut listing = ScanDump::default();
+    let mut second: Option<ScanDump> = None;
     let rules = if c.one_shot {
         match yara_x::compile(joined(c).as_str()) { Ok(r) => r, Err(_) => { listing.status = 1; dumps.push(listing); return dumps; } }
     } else {
-        let mut comp = yara_x::Compiler::new();
+        let mut comp = rust_compiler(c.flags);
+        if let Some(d) = &c.inc_dir { comp.add_include_dir(d); }
         for g in &c.globals { let ok = r_define(&mut comp, g); listing.extra.push(format!("def:{}", ok).into_bytes()); }
         let mut failed = 0;
         for (ns, src) in &c.sources {
@@ -415,13 +529,30 @@ fn rust_flow(c: &PCase) -> Vec<ScanDump> {
             if comp.add_source(src.as_str()).is_err() { failed += 1; }
         }
         listing.extra.push(format!("failed:{}", failed).into_bytes());
-        listing.extra.push(format!("errors:{}", comp.errors().len()).into_bytes());
-        comp.build()
+        r_probes(c, &mut comp, &mut listing.extra);
+        r_diagnostics(&comp, &mut listing.extra);
+        let rules = comp.build();
+        if c.second_round {
+            // what the C API documents: after build the compiler is in the state it had after yrx_compiler_create
+            let mut l2 = ScanDump::default();
+            let mut comp2 = rust_compiler(c.flags);
+            r_probes(c, &mut comp2, &mut l2.extra);
+            r_diagnostics(&comp2, &mut l2.extra);
+            let r2 = comp2.build();
+            l2.rules = r2.iter().map(|r| rust_rule(&r)).collect();
+            let mut sc = yara_x::Scanner::new(&r2);
+            let d = rust_results(sc.scan(c.buffers[0].as_slice()));
+            l2.status = d.status;
+            for r in &d.rules { let mut x = b"matched:".to_vec(); x.extend(&r.ident); l2.extra.push(x); }
+            second = Some(l2);
+        }
+        rules
     };
     listing.rules = rules.iter().map(|r| rust_rule(&r)).collect();
     listing.extra.push(format!("count:{}", rules.iter().len()).into_bytes());
     for i in rules.imports() { let mut x = b"import:".to_vec(); x.extend(i.as_bytes()); listing.extra.push(x); }
     dumps.push(listing);
+    if let Some(l2) = second { dumps.push(l2); }
     if c.finish_only {
         let r = catch(std::panic::AssertUnwindSafe(|| { let mut sc = yara_x::blocks::Scanner::new(&rules); rust_results(sc.finish()) }));
         match r { Ok(d) => dumps.push(d), Err(m) => { emit(format!("P\trust API panicked too: {}", m)); dumps.push(ScanDump { status: 98, ..Default::default() }) } }
